@@ -243,6 +243,69 @@ def run(ctx):
                                     'the failure verdict of an iteration reads %s, assigned inside the attempt that just failed: when the failure '
                                     'came before that assignment the value is the previous recording\'s (or unset), so the verdict labelled with this '
                                     'id carries another recording\'s data' % stale_l))
+    # ---------------- C08.j the per-recording routine keeps nothing on the equalizer: a verdict depends on its own recording only (and is the
+    # same in the worker process, whose copy of the equalizer is renewed with every recycle)
+    from . import common as _cm8
+    cjj = res.clause('C08.j', 'R-PROV', 'the per-recording routine keeps no state on the equalizer', floor=1)
+    _cm8.stateless_methods_clause(res, cjj, 'C08', 'C08.j', eq, [pac.name], 'a verdict is computed from its own recording alone')
+    # ---------------- C08.k the worker polls task ids of any value: "nothing polled" is the queue's Empty, never the falsiness of an id
+    ckk = res.clause('C08.k', 'R-SENTINEL', 'worker loop: a polled id is never tested by truthiness', floor=1)
+    wt_ = er.target
+    polled = {n.targets[0].id for n in ast.walk(wt_.node) if isinstance(n, ast.Assign) and isinstance(n.targets[0], ast.Name) and
+              isinstance(n.value, ast.Call) and isinstance(n.value.func, ast.Attribute) and n.value.func.attr in ('get', 'get_nowait')}
+    truthy = []
+    for n in ast.walk(wt_.node):
+        tests = []
+        if isinstance(n, (ast.If, ast.While, ast.IfExp)):
+            tests.append(n.test)
+        if isinstance(n, ast.BoolOp):
+            tests.extend(n.values)
+        for t_ in tests:
+            t2 = t_.operand if isinstance(t_, ast.UnaryOp) and isinstance(t_.op, ast.Not) else t_
+            if isinstance(t2, ast.Name) and t2.id in polled:
+                truthy.append(t_)
+    ckk.instance('polled task variable(s) %s never tested by truthiness' % sorted(polled), wt_.qualname, bool(polled) and not truthy)
+    ckk.evaluations += 1
+    for t_ in truthy[:1]:
+        res.add(Finding('C08', 'C08.k', 'R-SENTINEL', wt_.file, wt_.qualname, t_.lineno, norm(t_),
+                        'the worker decides "no task polled" by `%s`: a recording id that is falsy (0, empty string) is silently dropped, the parent '
+                        'waits for the timeout and reports a framework failure although the in-process run gives a verdict' % norm(t_)))
+    # ---------------- C08.l the text of a verdict can always be built: the info log inside the guarded block must not turn a verdict into a failure
+    cll = res.clause('C08.l', 'R-TOTAL', 'verdict objects format with any message / diff value', floor=1)
+    eqm = eq.module
+    concat = []
+    n_str = 0
+    # attributes the constructors document as text (`:type message: basestring`) may be concatenated
+    import re as _re
+    typed_str = set()
+    for c_ in eqm.classes.values():
+        im = c_.methods.get('__init__')
+        doc = ast.get_docstring(im.node) if im is not None else None
+        for mm in _re.finditer(r':type\s+(\w+)\s*:\s*(basestring|str|unicode|six\.text_type)\b', doc or ''):
+            typed_str.add(mm.group(1))
+    for c_ in eqm.classes.values():
+        sm = c_.methods.get('__str__') or c_.methods.get('__repr__')
+        if sm is None:
+            continue
+        n_str += 1
+        for n in ast.walk(sm.node):
+            if isinstance(n, ast.BinOp) and isinstance(n.op, (ast.Add, ast.Mod)):
+                for side in (n.left, n.right):
+                    if isinstance(n.op, ast.Mod) and side is n.right:
+                        continue
+                    if isinstance(side, (ast.Attribute, ast.Name, ast.Subscript)) and \
+                            not (isinstance(side, ast.Attribute) and side.attr in typed_str) and \
+                            not (isinstance(side, ast.Name) and side.id in {t.id for a_ in ast.walk(sm.node) if isinstance(a_, (ast.Assign, ast.AugAssign))
+                                                                             for t in ([a_.target] if isinstance(a_, ast.AugAssign) else a_.targets)
+                                                                             if isinstance(t, ast.Name)}):
+                        concat.append((sm, n, side))
+    cll.instance('%d __str__ methods of the verdict classes use total formatting only' % n_str, eqm.relpath, n_str > 0 and not concat)
+    cll.evaluations += n_str
+    for sm, n, side in concat[:1]:
+        res.add(Finding('C08', 'C08.l', 'R-TOTAL', sm.file, sm.qualname, n.lineno, norm(n)[:100],
+                        '%s concatenates `%s` into the text: a verdict whose message / diff is not a string (the comparator may return any object) '
+                        'makes the per-recording log line raise TypeError inside the guarded block, and the legitimate verdict is replaced by a '
+                        'framework failure' % (sm.qualname, norm(side))))
     # ---------------- C08.i a failure costs that recording only: the next dispatch finds a usable worker (shared with C13.f)
     cni = res.clause('C08.i', 'R-ORDER', 'after a worker failure the next dispatch does not trip over the forgotten handle', floor=1)
     c13.nullable_handle_clause(ctx, res, cni, 'C08', 'C08.i')
